@@ -1,6 +1,6 @@
 """Screen-side properties C04-C08, C10, C12-C18: compositions of the generic rules of rules_grid
 with property-specific clauses."""
-from . import inv, plt, runner
+from . import inv, plt, runner, structural
 from . import rules_grid as g
 from .engine import Budget, Engine, State
 from .model import short
@@ -73,12 +73,17 @@ def run_c10(ctx, chk):
         b = prog.bodies[f]
         for h in b.loops()[0]:
             ht = b.blocks[h]['term']
+            sem = semantic_loop_range(sr, disp, f, h)
             if ht['k'] == 'call' and ((ht['func'].get('fn') or {}).get('path', '')).endswith('::next'):
                 rng = loop_range(ctx, sr['engine'], f, h)
-                sem = semantic_loop_range(sr, disp, f, h)
                 if sem is not None:
                     rng = sem
                 ranges.append((f, rng, ht['args'][0]['place']['ty']))
+            elif sem is not None:
+                # a counting `while` the engine recognised as walking this range upwards
+                ranges.append((f, sem, 'while counting through std::ops::Range<u32>'))
+            elif structural.guard_switch(b, h, b.loops()[0][h]) is not None:
+                ranges.append((f, None, 'while loop (not recognised as a walk over a range)'))
     # the same iteration written with iterator adaptors: `(0..lines).map(render).collect()`
     coll_rows = []
     for r_ in sr['results'].get(disp, []):
@@ -205,10 +210,10 @@ def loop_carried(prog, func, want_range, ctx, sr):
     loops, back, idom, preds = body.loops()
     for h, blocks in loops.items():
         ht = body.blocks[h]['term']
-        if not (ht['k'] == 'call' and ((ht['func'].get('fn') or {}).get('path', '')).endswith('::next')):
+        is_for = ht['k'] == 'call' and ((ht['func'].get('fn') or {}).get('path', '')).endswith('::next')
+        if not ((is_for and loop_range(ctx, sr['engine'], func, h) == want_range) or semantic_loop_range(sr, func, func, h) == want_range):
             continue
-        if loop_range(ctx, sr['engine'], func, h) != want_range:
-            continue
+        own = sr['engine'].loop_counters.get((func, h), set())     # a counting `while`: its counter plays the part of the range iterator
         inside_def = set()
         mutated = set()
         for b in blocks:
@@ -240,6 +245,8 @@ def loop_carried(prog, func, want_range, ctx, sr):
         out = []
         for l in sorted((mutated | (inside_def & outside_def)) & outside_def):
             ty = body.locals[l]['ty']
+            if l in own:
+                continue
             if ty == '()' or ty.startswith('&') and 'mut' not in ty:
                 continue
             # closures: only those with a mutable environment carry state
@@ -689,7 +696,7 @@ def must_footprint(ctx, chk, scope):
                 why = 'the row loop %s..%s does not cover the documented rows (%s)' % (g.term(eng, st, ev[4][1]), g.term(eng, st, ev[4][2]), w)
                 continue
             body = prog.bodies.get(ev[1])
-            if isinstance(ev[2], int) and not g.loop_exits_only_at_head(body, ev[2]):
+            if isinstance(ev[2], int) and not g.loop_exits_only_at_head(body, ev[2], sr['engine'], ev[1]):
                 why = 'the row loop can be left early'
                 continue
             # every iteration of this row loop blanks the whole row
